@@ -953,6 +953,7 @@ def run(ctx, res):
 def replay(ctx, case):
     global _JDIR
     jinja2 = core.import_jinja()
+    case = case.get("case", case)      # a replay file wraps the case
     _JDIR = str(Path(jinja2.__file__).resolve().parent) + "/"
     if "templates" not in case or "k" not in case:
         return {"note": "not an input case", "case": case}
